@@ -13,7 +13,7 @@ RULE = (
     "class that implements the operation.  Oracle (variables total <= 13 bits, so model sets are decided by "
     "enumeration): the model set of And(result.constraints) equals the model set of the documented formula - "
     "OR_i(cond_i AND C_i) for merge, ancestor AND OR_i cond_i with an ancestor, AND_j C_j for combine; for split the "
-    "parts have pairwise disjoint variable sets, the multiset of top-level conjuncts is preserved (non-composite "
+    "parts have pairwise disjoint variable sets, every top-level conjunct of s occurs in the parts, at least once and at most as often as in s (non-composite "
     "classes) and the conjunction of the parts is equivalent to the original; then 6 queries on the result are judged "
     "against the reference over the formula (exact classes), which catches carried-over caches.  Merge conditions are "
     "constants, constraints over the same variables, and guards over a fresh variable.  Non-trivial: at least two "
@@ -173,7 +173,10 @@ def run_shard(spec, res):
                     # a literal True conjunct carries no constraint; frontends that filter concrete constraints drop it
                     want = collections.Counter(x.hash() for x in conj(before) if x is not claripy.true())
                     got = collections.Counter(x.hash() for p in parts for x in conj(p.constraints) if x is not claripy.true())
-                    if want != got:
+                    # "every conjunct of s exactly once": nothing lost, nothing invented, nothing multiplied.  A conjunct
+                    # that s itself holds twice (once as a constraint, once inside an And) may come back once: add()
+                    # de-duplicates when a part is filled - so 1 <= occurrences in parts <= occurrences in s
+                    if set(want) != set(got) or any(not 1 <= got[h] <= want[h] for h in want):
                         res.violation({"kind": "setop", "what": "split-conjunct-multiset-differs", "config": cfg, "constraints": base.cons, "before": [repr(x)[:120] for x in before], "parts": [[repr(x)[:120] for x in p.constraints] for p in parts]})
                 continue
             # queries on the merged / combined solver against the documented formula
